@@ -421,3 +421,256 @@ Proof. vm_compute. reflexivity. Qed.
 
 Lemma f12_signers : signing_peers [1; 2; 3; 4] f12_header = [1].
 Proof. vm_compute. reflexivity. Qed.
+
+(** * Which peer set governs a height: the selection rule, independent of insertion order *)
+From Coq Require Import Sorting.Sorted Sorting.Permutation.
+From Ont Require Import Gen.CrossHeaderShape.
+
+(** The documented rule, stated over the stored key heights as a multiset: the greatest stored
+    key height strictly below [h]. *)
+Fixpoint max_below (l : list N) (h : N) : option N :=
+  match l with
+  | [] => None
+  | v :: r =>
+      if v <? h then Some (match max_below r h with None => v | Some a => N.max v a end)
+      else max_below r h
+  end.
+
+Definition is_max_below (l : list N) (h v : N) : Prop :=
+  In v l /\ v < h /\ forall u, In u l -> u < h -> u <= v.
+
+Lemma max_below_some : forall l h v, max_below l h = Some v -> is_max_below l h v.
+Proof.
+  induction l as [|x r IH]; intros h v E; cbn [max_below] in E; [discriminate|].
+  destruct (x <? h) eqn:Ex.
+  - apply N.ltb_lt in Ex. destruct (max_below r h) as [a|] eqn:Ea.
+    + injection E as <-. destruct (IH h a Ea) as [I1 [I2 I3]].
+      split; [|split].
+      * destruct (N.max_spec x a) as [[_ ->]|[_ ->]]; [right; exact I1 | left; reflexivity].
+      * apply N.max_lub_lt; assumption.
+      * intros u [->|Hu] Hlt; [apply N.le_max_l|]. specialize (I3 u Hu Hlt).
+        pose proof (N.le_max_r x a). lia.
+    + injection E as <-. split; [left; reflexivity|]. split; [exact Ex|].
+      intros u [->|Hu] Hlt; [lia|]. exfalso.
+      assert (Hn : forall l', max_below l' h = None -> forall w, In w l' -> h <= w).
+      { clear. induction l' as [|y l' IH]; intros E w Hw; [destruct Hw|]. cbn [max_below] in E.
+        destruct (y <? h) eqn:Ey; [discriminate|]. apply N.ltb_ge in Ey.
+        destruct Hw as [->|Hw]; [exact Ey | apply IH; assumption]. }
+      specialize (Hn r Ea u Hu). lia.
+  - apply N.ltb_ge in Ex. destruct (IH h v E) as [I1 [I2 I3]].
+    split; [right; exact I1|]. split; [exact I2|].
+    intros u [->|Hu] Hlt; [lia | apply I3; assumption].
+Qed.
+
+Lemma max_below_none : forall l h, max_below l h = None -> forall u, In u l -> h <= u.
+Proof.
+  induction l as [|y l IH]; intros h E w Hw; [destruct Hw|]. cbn [max_below] in E.
+  destruct (y <? h) eqn:Ey; [discriminate|]. apply N.ltb_ge in Ey.
+  destruct Hw as [->|Hw]; [exact Ey | apply (IH h); assumption].
+Qed.
+
+Lemma is_max_below_unique : forall l h v v', is_max_below l h v -> is_max_below l h v' -> v = v'.
+Proof.
+  intros l h v v' [A1 [A2 A3]] [B1 [B2 B3]].
+  specialize (A3 v' B1 B2). specialize (B3 v A1 A2). lia.
+Qed.
+
+(** the rule does not depend on the order in which the heights are listed *)
+Lemma max_below_perm : forall l l' h, Permutation l l' -> max_below l h = max_below l' h.
+Proof.
+  intros l l' h P.
+  assert (T : forall a b, Permutation a b -> forall v, is_max_below a h v -> is_max_below b h v).
+  { intros a b Pab v [A1 [A2 A3]]. split; [apply (Permutation_in _ Pab A1)|]. split; [exact A2|].
+    intros u Hu. apply A3. apply (Permutation_in _ (Permutation_sym Pab) Hu). }
+  destruct (max_below l h) as [v|] eqn:E1; destruct (max_below l' h) as [v'|] eqn:E2.
+  - f_equal. apply (is_max_below_unique l' h); [|apply max_below_some; exact E2].
+    apply (T l l' P). apply max_below_some. exact E1.
+  - exfalso. destruct (max_below_some _ _ _ E1) as [A1 [A2 _]].
+    pose proof (max_below_none _ _ E2 v (Permutation_in _ P A1)). lia.
+  - exfalso. destruct (max_below_some _ _ _ E2) as [A1 [A2 _]].
+    pose proof (max_below_none _ _ E1 v' (Permutation_in _ (Permutation_sym P) A1)). lia.
+  - reflexivity.
+Qed.
+
+Definition desc (l : list N) : Prop := StronglySorted (fun a b => b <= a) l.
+
+(** on a list stored big -> small, "first entry below h" is the rule *)
+Lemma find_first_below_is_max : forall l h, desc l -> find (fun v => v <? h) l = max_below l h.
+Proof.
+  induction l as [|x r IH]; intros h S; [reflexivity|]. cbn [find max_below].
+  inversion S as [|? ? Sr Fx]; subst. destruct (x <? h) eqn:Ex.
+  - destruct (max_below r h) as [a|] eqn:Ea; [|reflexivity].
+    destruct (max_below_some _ _ _ Ea) as [A1 _]. rewrite Forall_forall in Fx.
+    specialize (Fx a A1). f_equal. symmetry. apply N.max_l. exact Fx.
+  - apply IH. exact Sr.
+Qed.
+
+Lemma kh_insert_In : forall h l x, In x (kh_insert h l) <-> x = h \/ In x l.
+Proof.
+  intros h. induction l as [|y r IH]; intros x; cbn [kh_insert].
+  - cbn. intuition.
+  - destruct (h <=? y); cbn [In]; [rewrite IH|]; intuition.
+Qed.
+
+Lemma kh_insert_desc : forall h l, desc l -> desc (kh_insert h l).
+Proof.
+  intros h. induction l as [|y r IH]; intros S; cbn [kh_insert].
+  - constructor; constructor.
+  - inversion S as [|? ? Sr Fy]; subst. destruct (h <=? y) eqn:E.
+    + apply N.leb_le in E. constructor; [apply IH; exact Sr|].
+      rewrite Forall_forall in *. intros x Hx. apply kh_insert_In in Hx.
+      destruct Hx as [->|Hx]; [exact E | apply Fy; exact Hx].
+    + apply N.leb_gt in E. constructor; [exact S|].
+      rewrite Forall_forall in *. intros x [->|Hx]; [lia|]. specialize (Fy x Hx). lia.
+Qed.
+
+Lemma kh_insert_perm : forall h l, Permutation (kh_insert h l) (h :: l).
+Proof.
+  intros h. induction l as [|y r IH]; cbn [kh_insert]; [reflexivity|].
+  destruct (h <=? y); [|reflexivity].
+  apply perm_trans with (y :: h :: r); [apply perm_skip; exact IH | apply perm_swap].
+Qed.
+
+Lemma kh_fold_desc : forall l acc, desc acc -> desc (fold_left (fun a x => kh_insert x a) l acc).
+Proof.
+  induction l as [|x l IH]; intros acc S; cbn [fold_left]; [exact S|].
+  apply IH. apply kh_insert_desc. exact S.
+Qed.
+
+Lemma kh_fold_perm : forall l acc,
+  Permutation (fold_left (fun a x => kh_insert x a) l acc) (l ++ acc).
+Proof.
+  induction l as [|x l IH]; intros acc; cbn [fold_left app]; [reflexivity|].
+  apply perm_trans with (l ++ kh_insert x acc); [apply IH|].
+  apply perm_trans with (l ++ x :: acc); [apply Permutation_app_head; apply kh_insert_perm|].
+  apply Permutation_sym. apply Permutation_middle.
+Qed.
+
+Lemma kh_sort_desc : forall l, desc (kh_sort l).
+Proof. intros. apply kh_fold_desc. constructor. Qed.
+
+Lemma kh_sort_perm : forall l, Permutation (kh_sort l) l.
+Proof. intros. unfold kh_sort. rewrite <- (app_nil_r l) at 2. apply kh_fold_perm. Qed.
+
+(** whatever the order in which key heights were inserted, the stored list selects the greatest
+    inserted height below [h] *)
+Lemma insertion_order_independent : forall hs h,
+  find (fun v => v <? h) (kh_sort hs) = max_below hs h.
+Proof.
+  intros. rewrite (find_first_below_is_max _ _ (kh_sort_desc hs)).
+  apply max_below_perm. apply kh_sort_perm.
+Qed.
+
+(** what the code writes: the list as written is big -> small and holds the old heights plus the
+    new one.  (Depends on Gen/CrossHeaderShape.v: fails if the source stops sorting.) *)
+Lemma kh_store_add_desc : forall old h, desc (kh_store (kh_add old h)).
+Proof. intros. unfold kh_store, kh_write_sorts_desc. apply kh_sort_desc. Qed.
+
+Lemma kh_store_add_perm : forall old h, Permutation (kh_store (kh_add old h)) (h :: old).
+Proof.
+  intros. unfold kh_store, kh_add, kh_write_sorts_desc, kh_put_appends.
+  apply perm_trans with (old ++ [h]); [apply kh_sort_perm|].
+  apply Permutation_sym. apply Permutation_cons_append.
+Qed.
+
+Lemma assoc1_set1_same : forall {V} k (v : V) l, assoc1 k (set1 k v l) = Some v.
+Proof.
+  intros V k v. induction l as [|[k' v'] r IH]; cbn [set1 assoc1]; [rewrite N.eqb_refl; reflexivity|].
+  destruct (k =? k') eqn:E; cbn [assoc1]; [rewrite N.eqb_refl; reflexivity|]. rewrite E. exact IH.
+Qed.
+
+Lemma assoc1_set1_other : forall {V} k k2 (v : V) l, k2 <> k -> assoc1 k2 (set1 k v l) = assoc1 k2 l.
+Proof.
+  intros V k k2 v l Hne. induction l as [|[k' v'] r IH]; cbn [set1 assoc1].
+  - apply N.eqb_neq in Hne. rewrite Hne. reflexivity.
+  - destruct (k =? k') eqn:E; cbn [assoc1].
+    + apply N.eqb_eq in E. subst k'. apply N.eqb_neq in Hne. rewrite Hne. reflexivity.
+    + destruct (k2 =? k'); [reflexivity | exact IH].
+Qed.
+
+Lemma put_key_heights_same : forall st chain height ids,
+  get_key_heights (put_consensus_peers st chain height ids) chain
+  = kh_store (kh_add (get_key_heights st chain) height).
+Proof.
+  intros. unfold get_key_heights at 1. cbn [put_consensus_peers st_key_heights].
+  rewrite assoc1_set1_same. reflexivity.
+Qed.
+
+Lemma put_key_heights_other : forall st chain height ids c2, c2 <> chain ->
+  get_key_heights (put_consensus_peers st chain height ids) c2 = get_key_heights st c2.
+Proof.
+  intros. unfold get_key_heights. cbn [put_consensus_peers st_key_heights].
+  rewrite assoc1_set1_other by assumption. reflexivity.
+Qed.
+
+Definition store_sorted (st : hstore) : Prop := forall chain, desc (get_key_heights st chain).
+
+Lemma put_sorted : forall st chain height ids,
+  store_sorted st -> store_sorted (put_consensus_peers st chain height ids).
+Proof.
+  intros st chain height ids S c2. destruct (N.eq_dec c2 chain) as [->|Hne].
+  - rewrite put_key_heights_same. apply kh_store_add_desc.
+  - rewrite put_key_heights_other by assumption. apply S.
+Qed.
+
+Lemma update_sorted : forall st h st', store_sorted st ->
+  update_consensus_peer st h = Some st' -> store_sorted st'.
+Proof.
+  intros st h st' S E. unfold update_consensus_peer in E. destruct (h_payload h); try discriminate.
+  - injection E as <-. exact S.
+  - injection E as <-. apply put_sorted. exact S.
+Qed.
+
+Lemma sync_genesis_sorted : forall c h, store_sorted (c_store c) ->
+  store_sorted (c_store (snd (sync_genesis c h))).
+Proof.
+  intros c h S. unfold sync_genesis.
+  destruct (update_consensus_peer (c_store c) h) as [st'|] eqn:E; cbn [snd c_store]; [|exact S].
+  apply (update_sorted _ _ _ S E).
+Qed.
+
+Lemma process_header_sorted : forall c h, store_sorted (c_store c) ->
+  store_sorted (c_store (snd (process_header c h))).
+Proof.
+  intros c h S. unfold process_header. destruct (verify_header (c_store c) h); [|exact S].
+  destruct (update_consensus_peer (c_store c) h) as [st'|] eqn:E; cbn [snd c_store]; [|exact S].
+  apply (update_sorted _ _ _ S E).
+Qed.
+
+Lemma sync_headers_sorted : forall hs c, store_sorted (c_store c) ->
+  store_sorted (c_store (snd (sync_headers c hs))).
+Proof.
+  induction hs as [|h r IH]; intros c S; cbn [sync_headers]; [exact S|].
+  destruct (has_header c (h_chain h) (h_height h)); [apply IH; exact S|].
+  pose proof (process_header_sorted c h S) as P.
+  destruct (process_header c h) as [[|e] c1]; cbn [snd] in *; [apply IH; exact P | exact S].
+Qed.
+
+Lemma sync_block_header_sorted : forall hs c, store_sorted (c_store c) ->
+  store_sorted (c_store (snd (sync_block_header c hs))).
+Proof.
+  intros hs c S. unfold sync_block_header. pose proof (sync_headers_sorted hs c S) as P.
+  destruct (sync_headers c hs) as [[|e] c1]; cbn [snd] in *; [exact P | exact S].
+Qed.
+
+(** contract states reachable from the empty storage by the two entry points *)
+Inductive reachable : cstate -> Prop :=
+| reach_empty : reachable (mkC (mkStore [] []) [])
+| reach_genesis : forall c h, reachable c -> reachable (snd (sync_genesis c h))
+| reach_block : forall c hs, reachable c -> reachable (snd (sync_block_header c hs)).
+
+Lemma reachable_sorted : forall c, reachable c -> store_sorted (c_store c).
+Proof.
+  intros c R. induction R.
+  - intros chain. cbn. constructor.
+  - apply sync_genesis_sorted. exact IHR.
+  - apply sync_block_header_sorted. exact IHR.
+Qed.
+
+(** In every reachable state, findKeyHeight is the order-independent rule. *)
+Lemma reachable_find_key_height : forall c, reachable c -> forall h chain,
+  find_key_height (c_store c) h chain = max_below (get_key_heights (c_store c) chain) h.
+Proof.
+  intros c R h chain. unfold find_key_height, kh_find_first_below.
+  apply find_first_below_is_max. apply (reachable_sorted c R).
+Qed.
